@@ -497,3 +497,10 @@ Proof.
   destruct (eval_map _ cv) as [v'|] eqn:Ev; [|discriminate].
   intro H. inversion H; subst. auto.
 Qed.
+
+(* ---------- calls ---------- *)
+Lemma assoc_call_stack p sp k :
+  assoc k (call_stack p sp) = first_hit k (sp :: sources p).
+Proof.
+  unfold call_stack. rewrite assoc_merge, assoc_consolidated. reflexivity.
+Qed.
